@@ -188,7 +188,19 @@ def s8(chk: Check, proj: Project, m, fc) -> None:
             chk.violated("S8", f"util.template_tag:_validate_params_with_code:raw-count-in-comparison:{y.attr}", m.loc(cmp_),
                          f"`{short(cmp_)}` compares an index of the TAG's arguments with the raw `{norm(y)}`, which still counts the skipped `self` / `context` parameters: with a `/` in the signature (def render(self, context, a, /, b)) a positionally passed `b` is not recorded as supplied and `{{% tag 1 2 %}}` raises 'missing a required argument', a call Python accepts")
     adj = [st for st in stmts(fc) if isinstance(st, ast.Assign) and isinstance(st.targets[0], ast.Name) and any(isinstance(y, ast.Attribute) and y.attr == "co_posonlyargcount" for y in ast.walk(st.value))]
-    okadj = bool(adj) and all(any(isinstance(y, ast.Name) and y.id == "skip_params" or (isinstance(y, ast.Constant) and y.value == 2) for y in ast.walk(st.value)) for st in adj)
+    # (the subtrahend is whatever the positional count is reduced by: same variable / constant in both adjustments)
+    def _subtrahends(attr: str) -> Set[str]:
+        out: Set[str] = set()
+        names = {attr} | {t.id for st in stmts(fc) if isinstance(st, ast.Assign) and isinstance(st.targets[0], ast.Name) and isinstance(st.value, ast.Attribute) and st.value.attr == attr for t in st.targets}
+        for st in stmts(fc):
+            if isinstance(st, ast.Assign):
+                for b in ast.walk(st.value):
+                    if isinstance(b, ast.BinOp) and isinstance(b.op, ast.Sub) and any((isinstance(y, ast.Attribute) and y.attr in names) or (isinstance(y, ast.Name) and y.id in names) for y in ast.walk(b.left)):
+                        out.add(norm(b.right))
+        return out
+
+    sub_pos, sub_po = _subtrahends("co_argcount"), _subtrahends("co_posonlyargcount")
+    okadj = bool(adj) and bool(sub_po) and sub_po <= (sub_pos or sub_po)
     chk.ob("S8", "util.template_tag:_validate_params_with_code:posonly-count-in-tag-frame", m.loc(adj[0]) if adj else m.loc(fc), okadj if adj else None,
            f"`{short(adj[0])}`: the positional-only count is moved into the tag's frame once, where it is defined" if okadj and adj else "the positional-only count is not reduced by the two skipped parameters")
     # (b) fallback signature: positional skip
